@@ -97,7 +97,8 @@ class SpecArray(object):
         if self._dd is not None:
             return self._dd
         if self.dir is not None and len(self.dir) > 1:
-            self._dd = abs(float(self.dir[1] - self.dir[0]))
+            dd = abs(float(self.dir[1] - self.dir[0])) % 360
+            self._dd = min(dd, 360 - dd)
         else:
             self._dd = 1.0
         return self._dd
